@@ -45,13 +45,16 @@ Record hlist := mkList {
   has_chrom : bool;           (* first line has >= 4 tab-separated columns *)
   entries : list entry }.
 
-(* The rules of the current code that the check found defective, each switchable to its repair. *)
+(* The four rules of the code that this check found defective (all repaired in /repo by now), each
+   switchable between the defective and the repaired form. *)
 Record rules := mkRules {
   early_exit : bool;          (* `missing_reads` countdown that breaks out of the pass *)
   dup_assert : bool;          (* assert total_reads == len(known_reads) *)
   hist_dup_rows : bool;       (* histogram rows from the un-deduplicated chain of Counter keys *)
   fastq_via_str : bool }.     (* FASTQ records are written as str(FastxRecord) *)
-Definition current : rules := mkRules true true true true.
+(* `legacy` = the code before the fixes cfc35a5, e3aea4e, fd3a952, 8e35f52 in /repo (kept for the
+   `_refuted` witnesses and to name a re-introduced defect); `repaired` = the code as it is now. *)
+Definition legacy : rules := mkRules true true true true.
 Definition repaired : rules := mkRules false false false false.
 
 Inductive err := EValue | EKey | EAssertDup | EAssertNoKnown.
@@ -202,24 +205,25 @@ Definition valid_input (c : cfg) (l : hlist) : bool :=
   forallb (hap_ok (ploidy c)) (entries l) &&
   negb (discard c && is_nil (entries l)).
 
-(* --- which haplotypes the list can be said to assign to a name.  A list that names a read once
-   assigns exactly one; where the text of the property does not decide (a name on several lines,
-   several blocks of maximal size, line count vs. distinct-read count) every reading is admitted. *)
-Definition ncount (es : list entry) (c p : Z) : nat :=
-  length (dedup (map ename (filter (in_block c p) es))).
-Definition clearly_largest (es : list entry) (c p : Z) : bool :=
-  forallb (fun e' => negb (tagged e' && (echrom e' =? c) && negb (eps e' =? p)) ||
-                     ((bcount es c (eps e') <? bcount es c p)%nat &&
-                      (ncount es c (eps e') <? ncount es c p)%nat)) es.
-Definition has_clear (es : list entry) (c : Z) : bool :=
-  existsb (fun e' => tagged e' && (echrom e' =? c) && clearly_largest es c (eps e')) es.
+(* --- which haplotype the list assigns to a name.  Under --only-largest-block a tagged line counts
+   only if its phase set is THE largest block of its chromosome: the block with the most tagged
+   lines, and among several of that size the one that appears first in the list (re-stated here
+   independently of best_scan: the phase set of the first tagged line of the chromosome whose block
+   size no other block exceeds).  A list that names a read once assigns exactly one haplotype;
+   only where a name stands on several lines every reading of those lines is admitted. *)
+Definition on_chrom (c : Z) (e : entry) : bool := tagged e && (echrom e =? c).
+Definition is_max_block (es : list entry) (c p : Z) : bool :=
+  forallb (fun e' => negb (on_chrom c e') || (bcount es c (eps e') <=? bcount es c p)%nat) es.
+Definition first_max (es : list entry) (c : Z) : option Z :=
+  option_map eps (find (fun e => on_chrom c e && is_max_block es c (eps e)) es).
+Definition in_first_max (es : list entry) (e : entry) : bool :=
+  match first_max es (echrom e) with Some p => eps e =? p | None => false end.
 
 Definition cand_entry (c : cfg) (es : list entry) (e : entry) : list Z :=
   if negb (tagged e) then [0]
   else if negb (only_largest c) then [ehap e]
-  else if clearly_largest es (echrom e) (eps e) then [ehap e]
-  else if has_clear es (echrom e) then [0]
-  else [ehap e; 0].
+  else if in_first_max es e then [ehap e]
+  else [0].
 
 Definition entries_of (es : list entry) (n : Z) : list entry := filter (fun e => ename e =? n) es.
 Definition cands (c : cfg) (es : list entry) (n : Z) : list Z :=
@@ -371,12 +375,16 @@ Definition outcome_eqb (a b : outcome) : bool :=
   end.
 
 (* the 16 rule sets, numbered by bit mask (1 = early_exit, 2 = dup_assert, 4 = hist_dup_rows,
-   8 = fastq_via_str); 15 = current, 0 = repaired *)
+   8 = fastq_via_str); 15 = legacy, 0 = repaired *)
 Definition rules_of (m : nat) : rules :=
   mkRules (Nat.odd m) (Nat.odd (m / 2)) (Nat.odd (m / 4)) (Nat.odd (m / 8)).
-(* which rule sets reproduce the implementation's result on this case *)
+(* L2: the implementation's result is exactly the repaired model's *)
+Definition l2 (c : cfg) (l : hlist) (reads : list read) (o : outcome) : bool :=
+  outcome_eqb (run repaired c l reads) o.
+(* diagnosis of an L2 failure: which rule sets reproduce the implementation's result on this case *)
 Definition matching_rules (c : cfg) (l : hlist) (reads : list read) (o : outcome) : list nat :=
-  filter (fun m => outcome_eqb (run (rules_of m) c l reads) o) (seq 0 16).
+  if l2 c l reads o then [0%nat]
+  else filter (fun m => outcome_eqb (run (rules_of m) c l reads) o) (seq 1 15).
 (* which single defective rule, switched on alone, makes the specification fail on this input *)
 Definition blamed_rules (c : cfg) (l : hlist) (reads : list read) : list nat :=
   filter (fun m => negb (l1 c l reads (run (rules_of m) c l reads))) [1; 2; 4; 8]%nat.
